@@ -15,6 +15,11 @@ ALSO = {  # further properties whose quick check is expected/observed to notice 
     "C01-lineline-multiaxis-meshgrid": ["C02"], "C07-inverse-rigid-fastpath": ["C06"], "C16-segment-contains-unnormalised": ["C03", "C18"],
     "C18-segment-contains-mixed-sign": ["C03", "C16"], "C09-polygon3d-drop-coordinate": ["C16"], "C03-rotation-axis-sign": [],
     "C04-normalize-any-all": [], "C12-perpendicular-inplace-view": [],
+    "C09c-plane-basis-cached-property": ["C12"], "C13c-foci-cached-property": ["C12"], "C14c-dual-cached-property": ["C12"],
+    "C15c-components-cached-property": ["C12"], "C17c-projection-basis-cached": ["C12"], "C18c-edges-cached-property": ["C12", "C16"],
+    "C16c-edges-cached-property": ["C18"], "C06c-inverse-memo-never-invalidated": ["C07", "C12"], "C07c-inverse-cache-array-identity": ["C06"],
+    "C10c-perpendicular-complex-alias": ["C12"], "C11c-crossratio-fill-aliases-operand": ["C12"], "C19c-normalize-astype-nocopy": ["C12"],
+    "C03c-sphere-int-centre-dtype": ["C13"],
     "C06b-inv-reciprocal-int-batch": ["C20"], "C02b-meshgrid-xy-indexing": ["C01"], "C12b-normalize-asarray-alias": ["C03"],
 }
 
